@@ -268,7 +268,7 @@ def run():
     DECOYS = [dinfo.get("table_prefix", "table_") + str(i) for i in range(4)]
     tests = []      # dict(src, setup, expected(multiset of tuples), names, skeleton, position)
 
-    def add_test(skeleton, position, T, U, alias_t, alias_u, K, C1, C2, C3, extra_cols=()):
+    def add_test(skeleton, position, T, U, alias_t, alias_u, K, C1, C2, C3, extra_cols=(), perm=None, ucols=(), dup=None):
         cols_t = [K, C1, C2, C3] + [c for c in extra_cols]
         cols_u = [K, C1, C2, C3]
         rt, ru = table_rows(cols_t, 0), table_rows(cols_u, 100000)
@@ -327,6 +327,17 @@ def run():
         elif skeleton == "group":
             src = "from %s | group {%s} (aggregate {n = sum %s}) | select {%s, n}" % (fromT, c(C1), c(C2), c(C1))
             exp = [(r[C1], r[C2]) for r in rt]
+        elif skeleton == "split-dup-perm":
+            # directed family: at a sub-query split the select list holds two equally named columns (column `dup` of both join
+            # sides) and user columns spelled like the names the generator hands out next, in the relative order `perm`
+            items = ["%s.%s" % (refT, bt(dup)), "%s.%s" % (refU, bt(dup))] + ["%s.%s" % (refT, bt(u)) for u in ucols]
+            sel = ", ".join(items[i] for i in perm)
+            flt = " && ".join("%s > 1000" % c(u) for u in ucols)       # markers are > 1000, join keys are 1..4
+            # no trailing select: it would prune the duplicates away before the split.  Values are compared by position
+            # (the names of the result columns are C05's business: the renamed duplicate / user column shows up as _expr_N)
+            src = "from %s | join %s (==%s) | select {%s} | take 4 | filter %s" % (fromT, joinU, bt(K), sel, flt)
+            vals = lambda a, b: [a[dup], b[dup]] + [a[u] for u in ucols]
+            exp = [tuple(vals(a, b)[i] for i in perm) for a in rt for b in ru if a[K] == b[K]]
         elif skeleton == "split-dup":
             # two columns with the same name at a split (the join key of both sides) next to a column named C1
             src = "from %s | join %s (==%s) | select {%s.%s, %s.%s, %s.%s} | take 4 | filter %s > 0 | select {%s}" % (
@@ -372,6 +383,19 @@ def run():
     # the open finding F33 (case variants of generated names), always in the skeleton with the most generated CTEs
     for vn in (tp[:-2].lower() + tp[-2:].upper() + "0", tp.capitalize() + "1"):
         add_test("split3", "table", vn, "u", None, None, "k", "a", "b", "c")
+    # duplicate names at a split together with user columns named like the next generated names, every relative order,
+    # the duplicate being the join key or an ordinary column, with 1..3 such user columns (also starting at _expr_1)
+    for ucols in ([cp + "0"], [cp + "0", cp + "1"], [cp + "1", cp + "0"], [cp + "1"], [cp + "0", cp + "1", cp + "2"]):
+        n_items = 2 + len(ucols)
+        perms = list(itertools.permutations(range(n_items)))
+        if n_items > 4:
+            perms = ck.rng.sample(perms, ck.n(16, 60))
+        for dupcol in ("k", "b"):
+            for pm in perms:
+                if dupcol == "k":
+                    add_test("split-dup-perm", "generated-like", "t", "u", None, None, "k", ucols[0], "b" if len(ucols) < 2 else ucols[1], "c" if len(ucols) < 3 else ucols[2], perm=pm, ucols=ucols, dup="k")
+                elif len(ucols) <= 2:
+                    add_test("split-dup-perm", "generated-like", "t", "u", None, None, "k", ucols[0], "b", "c" if len(ucols) < 2 else ucols[1], perm=pm, ucols=ucols, dup="b")
     for c1 in (cp + "0", cp + "1", "a", cp + "2"):
         add_test("split-dup", "generated-like", "t", "u", None, None, "k", c1, "b", "c")
 
